@@ -96,8 +96,8 @@ Definition dqm_e (p : poly) (stride : nat) (s : sample) : Qc :=
    tolerances atol = 1e-8, rtol = 1e-6 *)
 Definition cqm_atol : Qc := qc 1 100000000.
 Definition cqm_rtol : Qc := qc 1 1000000.
-Definition con_sat (s : sample) (c : poly * sense * Qc) : bool :=
-  satisfied cqm_atol cqm_rtol (mkCon (fst (fst c)) (snd (fst c)) (snd c) None) s.
+Definition con_sat_tol (atol rtol : Qc) (s : sample) (c : poly * sense * Qc) : bool :=
+  satisfied atol rtol (mkCon (fst (fst c)) (snd (fst c)) (snd c) None) s.
 
 Inductive comp :=
 | KPass
@@ -127,7 +127,8 @@ Inductive case :=
 | CExact (pr : problem) (spin : bool) (vars : list label) (res : result)
 | CExactDqm (p : poly) (stride : nat) (ncases : list nat) (res : result)
 | CExactCqm (obj : poly) (vars : list (label * vdom)) (groups : list (list label))
-            (cons : list (poly * sense * Qc)) (res : result) (feas : list bool)
+            (cons : list (poly * sense * Qc)) (tol : option (Qc * Qc))   (* Some (atol, rtol) as passed; None = defaults *)
+            (res : result) (feas : list bool)
 | CComp (k : comp) (child res : result)
 | CMixin (d : mixdir) (n : nat) (vars : list label) (submitted sent : poly) (child res : result)
 (* the deterministic remainder of the stochastic samplers, on the rows they returned *)
@@ -215,7 +216,11 @@ Definition check (c : case) : bool :=
       let vars := seq 0 (length ncases) in
       post (dqm_e p stride) (combine vars (map (fun n => DInt 0 (Z.of_nat n - 1)) ncases)) res &&
       exact_ok (dqm_e p stride) vars (zrows (all_cases_dqm ncases)) res
-  | CExactCqm obj vars groups cns res feas =>
+  | CExactCqm obj vars groups cns tol res feas =>
+      let con_sat := match tol with
+                     | Some (atol, rtol) => con_sat_tol atol rtol
+                     | None => con_sat_tol cqm_atol cqm_rtol
+                     end in
       let d_vars := concat groups in
       let order := cqm_var_order (map fst vars) groups in
       let free := filter (fun t => negb (mem_nat (fst t) d_vars)) vars in
